@@ -1,52 +1,218 @@
 mod codec;
 mod common;
+mod driver;
 mod e1;
+mod engine;
 mod hostile;
+mod props;
 mod rng;
 mod select;
 mod shim;
 
+use std::sync::Arc;
+
+use driver::{CheckPlan, ReplayFile};
+use engine::Engine;
+
+fn engines() -> Vec<Arc<dyn Engine>> {
+    vec![Arc::new(e1::engine::E1)]
+}
+
+fn env_u64(k: &str) -> Option<u64> {
+    std::env::var(k).ok().and_then(|s| s.parse().ok())
+}
+
+/// Run counts per (property, engine, tier). Fixed so that a seed names the same runs anywhere;
+/// the wall-clock cap is only a safety stop.
+fn plan_for(prop: &str, tier: &str) -> Vec<(Arc<dyn Engine>, u64)> {
+    let thorough = tier == "thorough";
+    let scale = env_u64("VERIF_RUNS_PCT").unwrap_or(100);
+    let mut v: Vec<(Arc<dyn Engine>, u64)> = Vec::new();
+    let e1_runs: u64 = match prop {
+        "C19" => 0,
+        _ => {
+            if thorough {
+                400_000
+            } else {
+                12_000
+            }
+        }
+    };
+    if e1_runs > 0 {
+        v.push((Arc::new(e1::engine::E1), (e1_runs * scale / 100).max(1)));
+    }
+    v
+}
+
+fn usage() -> i32 {
+    eprintln!("usage: sim check <C01..C20> <quick|thorough> | replay <file> [-v] | selftest [n] | explore <prop> <start> <count> | log <prop> <seed> [lines]");
+    2
+}
+
 fn main() {
     common::install_panic_hook();
-    shim::self_check().unwrap();
+    if let Err(e) = shim::self_check() {
+        eprintln!("harness error: {e}");
+        std::process::exit(2);
+    }
     let args: Vec<String> = std::env::args().collect();
-    let start: u64 = args.get(1).and_then(|s| s.parse().ok()).unwrap_or(1);
-    let count: u64 = args.get(2).and_then(|s| s.parse().ok()).unwrap_or(10);
-    let enabled: Vec<String> = (1..=20).map(|i| format!("C{i:02}")).collect();
-    if args.get(3).map(|s| s == "log").unwrap_or(false) {
-        shim::seed_thread(start);
-        let g = e1::gen::run_generated(start, e1::gen::Profile::General, &enabled, true);
-        let n = g.world.log.len();
-        for l in g.world.log.iter().skip(n.saturating_sub(count as usize)) {
-            println!("{l}");
+    let code = match args.get(1).map(|s| s.as_str()) {
+        Some("check") => {
+            let (Some(prop), Some(tier)) = (args.get(2), args.get(3)) else { std::process::exit(usage()) };
+            let tier = std::env::var("VERIF_TIER").ok().filter(|t| t == "quick" || t == "thorough").unwrap_or(tier.clone());
+            if !props::ALL.contains(&prop.as_str()) || (tier != "quick" && tier != "thorough") {
+                std::process::exit(usage());
+            }
+            let seed = env_u64("VERIF_SEED").unwrap_or(1);
+            println!("VERIF_SEED={seed} property={prop} tier={tier}");
+            let budget_s = env_u64("VERIF_BUDGET_S").map(|x| x as f64).unwrap_or(if tier == "quick" { 150.0 } else { 3000.0 });
+            let workers = env_u64("VERIF_WORKERS").unwrap_or(16) as usize;
+            let plan = CheckPlan { prop: prop.clone(), tier, seed, engines: plan_for(prop, args[3].as_str()), budget_s, workers };
+            driver::run_check(&plan).exit
         }
-        println!("{:?}", g.violation);
-        println!("{:?}", g.cfg);
-        return;
-    }
+        Some("replay") => {
+            let Some(path) = args.get(2) else { std::process::exit(usage()) };
+            driver::cmd_replay(&engines(), path, args.iter().any(|a| a == "-v"))
+        }
+        Some("selftest") => {
+            let n = args.get(2).and_then(|s| s.parse().ok()).unwrap_or(200u64);
+            selftest(n, args.get(3).map(|s| s.as_str()))
+        }
+        Some("explore") => {
+            let prop = args.get(2).cloned().unwrap_or("C02".into());
+            let start: u64 = args.get(3).and_then(|s| s.parse().ok()).unwrap_or(1);
+            let count: u64 = args.get(4).and_then(|s| s.parse().ok()).unwrap_or(1000);
+            explore(&prop, start, count)
+        }
+        Some("log") => {
+            let prop = args.get(2).cloned().unwrap_or("C02".into());
+            let seed: u64 = args.get(3).and_then(|s| s.parse().ok()).unwrap_or(1);
+            let lines: usize = args.get(4).and_then(|s| s.parse().ok()).unwrap_or(60);
+            let eng = e1::engine::E1;
+            let rec = engine::on_fresh_thread(seed, {
+                let prop = prop.clone();
+                move || eng.generate(seed, &prop)
+            });
+            let rf = ReplayFile {
+                format: 1,
+                engine: rec.engine.into(),
+                property: prop.clone(),
+                profile: rec.profile.clone(),
+                seed,
+                run_index: 0,
+                thread_seed: seed,
+                expect: "violation".into(),
+                config: rec.cfg.clone(),
+                commands: rec.cmds.clone(),
+                violation: rec.outcome.violation.clone(),
+                trace: format!("{:016x}", rec.outcome.trace),
+                original_commands: rec.cmds.len(),
+                note: String::new(),
+            };
+            let (o, log) = driver::run_replay(&e1::engine::E1, &rf, true);
+            for l in log.iter().skip(log.len().saturating_sub(lines)) {
+                println!("{l}");
+            }
+            println!("profile {} violation {:?} foreign {:?} known {:?}", rec.profile, o.violation, o.foreign_abort, o.known_hits);
+            println!("{}", rec.cfg);
+            0
+        }
+        _ => usage(),
+    };
+    std::process::exit(code);
+}
+
+/// Dev tool: run seeds start..start+count for a property on all cores, print violation classes.
+fn explore(prop: &str, start: u64, count: u64) -> i32 {
+    use std::collections::BTreeMap;
+    use std::sync::atomic::{AtomicU64, Ordering};
+    use std::sync::Mutex;
     let t0 = std::time::Instant::now();
-    let mut classes: std::collections::BTreeMap<String, (u64, u64, String)> = Default::default();
-    let mut stats = common::Stats::default();
-    for seed in start..start + count {
-        let en = enabled.clone();
-        let g = std::thread::spawn(move || {
-            shim::seed_thread(seed);
-            let g = e1::gen::run_generated(seed, e1::gen::Profile::General, &en, false);
-            (g.violation, g.world.stats.clone(), g.cmds.len(), g.world.known_hits.len())
-        })
-        .join()
-        .unwrap();
-        stats.merge(&g.1);
-        if let Some(v) = g.0 {
-            let e = classes.entry(v.code.clone()).or_insert((seed, 0, v.detail.clone()));
-            e.1 += 1;
-        }
+    let next = Arc::new(AtomicU64::new(start));
+    let classes: Arc<Mutex<BTreeMap<String, (u64, u64, String)>>> = Default::default();
+    let stats: Arc<Mutex<common::Stats>> = Default::default();
+    let mut hs = Vec::new();
+    for _ in 0..16 {
+        let (next, classes, stats, prop) = (next.clone(), classes.clone(), stats.clone(), prop.to_string());
+        hs.push(std::thread::spawn(move || loop {
+            let seed = next.fetch_add(1, Ordering::SeqCst);
+            if seed >= start + count {
+                break;
+            }
+            let p2 = prop.clone();
+            let rec = engine::on_fresh_thread(seed, move || e1::engine::E1.generate(seed, &p2));
+            stats.lock().unwrap().merge(&rec.outcome.stats);
+            let mut c = classes.lock().unwrap();
+            if let Some(v) = &rec.outcome.violation {
+                let e = c.entry(v.code.clone()).or_insert((seed, 0, v.detail.clone()));
+                e.1 += 1;
+                e.0 = e.0.min(seed);
+            }
+            if let Some(f) = &rec.outcome.foreign_abort {
+                let key = format!("foreign:{}", f.split(':').next().unwrap_or(""));
+                let e = c.entry(key).or_insert((seed, 0, f.clone()));
+                e.1 += 1;
+                e.0 = e.0.min(seed);
+            }
+        }));
     }
-    println!("{} runs in {:?}", count, t0.elapsed());
-    for (k, v) in &classes {
+    for h in hs {
+        let _ = h.join();
+    }
+    println!("{count} runs in {:?}", t0.elapsed());
+    for (k, v) in classes.lock().unwrap().iter() {
         println!("VIOL {k}: first seed {} count {} :: {}", v.0, v.1, v.2);
     }
-    for (k, v) in &stats.0 {
-        println!("  {k} = {v}");
+    if std::env::var("STATS").is_ok() {
+        for (k, v) in &stats.lock().unwrap().0 {
+            println!("  {k} = {v}");
+        }
     }
+    0
+}
+
+/// Determinism self-test: the same run seeds give the same trace hashes in two child processes
+/// (and across worker counts, since a run never depends on which worker took it).
+fn selftest(n: u64, child: Option<&str>) -> i32 {
+    if child == Some("child") {
+        let mut acc = Vec::new();
+        for prop in ["C02", "C09", "C12", "C16", "C17"] {
+            for i in 0..n {
+                let seed = rng::mix(prop_seed(prop), i);
+                let p = prop.to_string();
+                let rec = engine::on_fresh_thread(seed, move || e1::engine::E1.generate(seed, &p));
+                acc.push(format!("{prop} {i} {:016x} {}", rec.outcome.trace, rec.cmds.len()));
+            }
+        }
+        println!("{}", acc.join("\n"));
+        return 0;
+    }
+    let exe = std::env::current_exe().unwrap();
+    let run = || std::process::Command::new(&exe).arg("selftest").arg(n.to_string()).arg("child").output();
+    let (a, b) = (run(), run());
+    match (a, b) {
+        (Ok(a), Ok(b)) if a.status.success() && b.status.success() => {
+            if a.stdout == b.stdout && !a.stdout.is_empty() {
+                println!("selftest: {} runs x 2 processes: identical trace hashes", 5 * n);
+                0
+            } else {
+                let (sa, sb) = (String::from_utf8_lossy(&a.stdout).to_string(), String::from_utf8_lossy(&b.stdout).to_string());
+                for (la, lb) in sa.lines().zip(sb.lines()) {
+                    if la != lb {
+                        eprintln!("harness error: nondeterminism: {la} vs {lb}");
+                        break;
+                    }
+                }
+                2
+            }
+        }
+        _ => {
+            eprintln!("harness error: selftest child failed");
+            2
+        }
+    }
+}
+
+fn prop_seed(p: &str) -> u64 {
+    driver::prop_hash(p)
 }
